@@ -28,7 +28,7 @@ def gen_value(rng, depth, json_safe):
     r = rng.random()
     if depth <= 0 or r < 0.45:
         if json_safe:
-            return rng.choice([None, True, False, 1.5, "", "x", "123", "_", "a_b:c", 7, -3])
+            return rng.choice([None, True, False, 1.5, "", "x", "123", "_", "a_b:c", 7, -3, float("inf"), float("-inf"), 1e308])
         if r < 0.15:
             return rng.choice(BYTES)
         if r < 0.25:
